@@ -273,6 +273,51 @@ def note_parent_family():
     return out
 
 
+# ----------------------------------------------------------------------------- directed family: spans of substituted asm text
+SPAN_RULES = ["    st {v: u8} => 0x10 @ v", "    ld {x} => asm { st {x} }", "    ldd {x} => asm { ld {x} }",
+              "    mv {a}, {b} => asm\n    {\n        st {a}\n        st {b}\n    }", "    lds {x} => asm { st {x} + 0 }"]
+
+
+def span_args():
+    """(name, argument text, instruction) long argument texts that fail (or not) INSIDE the asm body after substitution"""
+    out = []
+    for n in (1, 20, 60, 150, 400):
+        out.append(("sum_zeros_%d" % n, "0x100 + 0x" + "0" * n + "1"))
+    out += [("big_literal", "0x1000000"), ("bigger_literal", "0x10000000"), ("valid_short", "0x12"), ("valid_long", "0x" + "0" * 90 + "12"),
+            ("undefined_long_name", "undefined_symbol_with_a_very_long_name_" + "x" * 80), ("undefined_short", "q"),
+            ("div_zero_padded", "1 /" + " " * 70 + "0"), ("parens", "(" * 20 + "300" + ")" * 20),
+            ("string_ascii", '"' + "a" * 60 + '"'), ("string_nonascii", '"' + "é" * 40 + '"'), ("string_emoji", '"' + "\U0001F600" * 20 + '"'),
+            ("nonascii_in_block_comment", "300 ;* " + "é" * 30 + " *;"), ("negative", "-" + "0" * 50 + "1"), ("shift", "1 << 0x" + "0" * 40 + "9")]
+    return out
+
+
+def asm_span_family():
+    """[(label, files, entry)]: an error reported for text that was SUBSTITUTED into an asm body carries a span laid over the file
+    that holds the rule.  Rules in a short included file / at the very end of the file / followed by multi-byte characters, x
+    which rule, x long argument texts: the span may end past the end of that file or inside a character; printing must cope."""
+    rules = "#ruledef\n{\n" + "\n".join(SPAN_RULES) + "\n}"
+    out = []
+    for (aname, arg) in span_args():
+        for instr in ("ld", "ldd", "lds", "mv"):
+            line = "%s %s" % (instr, arg) if instr != "mv" else "mv 1, %s" % arg
+            code = "start:\n%s\n#d8 1\n" % line
+            layouts = [
+                ("included_short", {"main.asm": '#include "cpu.asm"\n' + code, "cpu.asm": rules + "\n"}),
+                ("included_short_no_eol", {"main.asm": '#include "cpu.asm"\n' + code, "cpu.asm": rules}),
+                ("included_in_subdir", {"main.asm": '#include "inc/cpu.asm"\n\n\n' + code, "inc/cpu.asm": rules}),
+                ("rules_after_code", {"main.asm": code + rules}),
+                ("rules_after_code_eol", {"main.asm": code + rules + "\n"}),
+                ("nonascii_after_rules", {"main.asm": rules + " ; «" + "é" * 12 + "»\n" + code}),
+                ("nonascii_after_rules_only", {"main.asm": code + rules + " ; " + "\u3042" * 30}),
+                ("emoji_after_rules", {"main.asm": '#include "cpu.asm"\n' + code, "cpu.asm": rules + "\n; " + "\U0001F600" * 40 + "\n"}),
+                ("nonascii_inside_rules", {"main.asm": "#ruledef\n{\n" + "\n".join(r + " ; é«»" for r in SPAN_RULES) + "\n}\n" + code}),
+                ("rules_first_long_file", {"main.asm": rules + "\n" + code + "; padding\n" * 40}),
+            ]
+            for (lname, files) in layouts:
+                out.append(("gen:asm_span/%s/%s/%s" % (lname, instr, aname), {n: t.encode("utf-8") for n, t in files.items()}, "main.asm"))
+    return out
+
+
 # ----------------------------------------------------------------------------- directed family: machine-word extremes
 def word_extremes():
     """machine-word boundaries and their neighbours, positive and negative"""
